@@ -18,7 +18,7 @@ for md, c in sorted(conf.items()):
     if m:
         prop, mid = m.group(1), m.group(2)
     else:
-        m = re.search(r'w([23])_(C\d+)/_mutants/m(\d+)', md)  # second wave: m1, m2 -> m3, m4; third: m5, m6
+        m = re.search(r'w([234])_(C\d+)/_mutants/m(\d+)', md)  # second wave: m1, m2 -> m3, m4; third: m5, m6; fourth: m7..m9
         wave = int(m.group(1))
         prop, mid = m.group(2), "m%d" % (int(m.group(3)) + 2 * (wave - 1))
     out = f"/verif/seeded/{prop}-{mid}"
@@ -41,7 +41,7 @@ for md, c in sorted(conf.items()):
     meta = {
         "id": f"{prop}-{mid}",
         "property": prop,
-        "wave": old_wave if (old_wave := (json.load(open(os.path.join(out, "meta.json"))).get("wave") if os.path.exists(os.path.join(out, "meta.json")) else None)) else (wave if wave > 1 else (2 if mid in ("m3", "m4") else 3 if mid in ("m5", "m6") else 1)),
+        "wave": old_wave if (old_wave := (json.load(open(os.path.join(out, "meta.json"))).get("wave") if os.path.exists(os.path.join(out, "meta.json")) else None)) else (wave if wave > 1 else (2 if mid in ("m3", "m4") else 3 if mid in ("m5", "m6") else 4 if mid in ("m7", "m8", "m9") else 1)),
         "summary": title,
         "needs_to_manifest": needs,
         "demonstration": {"file": "demo_test.go", "copy_to": c.get("target"), "tests": c.get("tests")},
